@@ -16,7 +16,7 @@ func (c07) Level() string { return "exploration" }
 func (c07) Procs() int    { return 2 }
 func (c07) Budget(tier string) (int, int) {
 	if tier == "thorough" {
-		return 6000000, 600
+		return 60000000, 600
 	}
 	return 60000, 25
 }
